@@ -425,6 +425,7 @@ def catalogue():
     add("t", "t_syncsend", TraitLike("Trait", "ab", [], sync=True, send=True))
     add("q", "t_fn", TraitLike("FnClosure", "a", [M("docall", P("u8"), [P("u8"), P("u16")])]))
     add("q", "t_fut", TraitLike("Future", "a", [M("poll", P("u32"), [])], send=True))
+    add("q", "t_fut0", TraitLike("Future", "a", []))
     add("t", "t_2m", TraitLike("Trait", "a", [M("f", P("u8"), [P("u8")]), M("g", L("ZeroSize"), [])]))
     add("t", "t_boxed", Unary("Boxed", TraitLike("Trait", "a", [M("f", P("u8"), [])])))
     return S
